@@ -10,8 +10,10 @@ Record input := mkIn {
   i_nd : tdef; i_tr : list transfer; i_ixs : list idx;      (* what _create was about to build: new definition, copy mapping, trailing indexes *)
   i_faults : list (nat * err);                               (* positions (in sending order) of the statements made to raise, and what they raise *)
   i_scope : scope;
-  i_tddl : option bool }.                                    (* the context option transactional_ddl: unset / True / False.  flush and _create never read it:
-                                                                 the model takes it as an input and ignores it; the correspondence checks exactly that *)
+  i_tddl : option bool;
+  i_tpm : bool }.                                    (* the context option transactional_ddl: unset / True / False.  flush and _create never read it:
+                                                                 the model takes it as an input and ignores it; the correspondence checks exactly that.
+                                                                 i_tpm: the option transaction_per_migration, likewise never read there *)
 
 (* an observed table: definition identity, rows (a multiset), index names (a set) *)
 Definition otable := (N * list row * list name)%type.
@@ -53,7 +55,7 @@ Definition obs_eqb (a b:obs) : bool :=
 
 Definition err_eqb (a b:err) : bool :=
   match a, b with
-  | EInjected, EInjected | EInterrupt, EInterrupt | EIntegrity, EIntegrity | EOperational, EOperational | EOther, EOther => true
+  | EInjected, EInjected | EInterrupt, EInterrupt | EIntegrity, EIntegrity | EOperational, EOperational | EPython, EPython | EOther, EOther => true
   | _, _ => false
   end.
 Definition oerr_eqb (a b:option err) : bool :=
@@ -151,3 +153,31 @@ Definition tmp_gone_class (k:kind) (pre:bool) (f:nat -> bool) (oc:outcome) : boo
   end.
 Definition inclass_C11 (i:input) : bool :=
   tmp_gone_class (i_kind i) (i_pre i) (faults_of (i_faults i)) (eff_outcome (i_scope i) (Some EInjected)).
+
+(* ------------------------------------------------------------------ what a single failing statement leaves behind *)
+(* The statement at position `pos` of CREATE tmp (0); INSERT..SELECT (1); DROP original (2); RENAME (3) raises before it
+   reaches the database, nothing else fails.  What is then under the original and under the temporary name once the
+   transaction is ended with `oc` — (original table, temporary table): *)
+Definition left_after (k:kind) (pre:bool) (oc:outcome) (pos:nat) (T0:table) (nd:tdef) (img:list row) : option table * option table :=
+  let in_tx := match k with TxDDL => true | Pysqlite => pre | AutoCommitDDL | AutoCommit => false end in
+  match pos with
+  | 0%nat | 1%nat => (Some T0, None)                                    (* original intact, no temporary table *)
+  | 2%nat => (Some T0, match k, pre, oc with
+                       | Pysqlite, false, Rollback => Some (mkTable nd [] [])      (* the registered deviation: empty temporary table back *)
+                       | _, _, _ => None end)
+  | _ => match oc, k with
+         | Commit, _ | Rollback, AutoCommitDDL | Rollback, AutoCommit => (None, Some (mkTable nd img []))  (* every row, copied, under the temporary name *)
+         | Rollback, _ => if in_tx then (Some T0, None) else (Some T0, Some (mkTable nd [] []))
+         end
+  end.
+
+(* The Python-level failure point of _create: every statement CREATE tmp; INSERT..SELECT; DROP original; RENAME succeeded,
+   then _gather_indexes_from_both_tables raises (an index of the batch names a column the new table does not have) before
+   any CREATE INDEX is sent — after the rename and outside the try: no handler runs.  (original name, temporary name): *)
+Definition left_after_gather (k:kind) (pre:bool) (oc:outcome) (T0:table) (nd:tdef) (img:list row) : option table * option table :=
+  let in_tx := match k with TxDDL => true | Pysqlite => pre | AutoCommitDDL | AutoCommit => false end in
+  match oc, k with
+  | Commit, _ | Rollback, AutoCommitDDL | Rollback, AutoCommit => (Some (mkTable nd img []), None)   (* recreated, every row, no index *)
+  | Rollback, _ => if in_tx then (Some T0, None) else (Some T0, Some (mkTable nd [] []))
+  end.
+
